@@ -35,6 +35,7 @@ func init() {
 			{ID: "C19.16", Desc: "the storer searches for the variant's reference for every unusable position", Run: func(c *Ctx) { ruleSearchCoversEveryUnusablePosition(c, "C19.16") }, MinSites: 1},
 			{ID: "C19.17", Desc: "the list that is handed on is the list that was read", Run: func(c *Ctx) { ruleMissPathGetsReadIndex(c, "C19.17") }, MinSites: 1},
 			{ID: "C19.18", Desc: "the filter of the reference list drops the duplicate only", Run: func(c *Ctx) { ruleFilterLoopRunsToEnd(c, "C19.18") }, MinSites: 1},
+			{ID: "C19.19", Desc: "an index key of any length can be written and deleted (the length test measures the encoded name)", Run: func(c *Ctx) { ruleC14_7(c); renameRule(c, "C14.7", "C19.19") }, MinSites: 1},
 		},
 	})
 	register(&Property{
@@ -57,6 +58,7 @@ func init() {
 			{ID: "C20.8", Desc: "the background goroutine releases its waiter only after the reply was handled", Run: func(c *Ctx) { ruleNoReleaseBeforeWriteBack(c, "C20.8") }, MinSites: 1},
 			{ID: "C20.9", Desc: "once spawned the background revalidation sends its request", Run: func(c *Ctx) { ruleBackgroundAlwaysAsks(c, "C20.9") }, MinSites: 1},
 			{ID: "C20.10", Desc: "the stale answer does not depend on the state of the caller's context", Run: func(c *Ctx) { ruleForegroundIgnoresCallerContext(c, "C20.10") }, MinSites: 1},
+			{ID: "C20.11", Desc: "the one background revalidation takes effect: its 304 is recognised by comparing the validators that were sent", Run: func(c *Ctx) { ruleBackground304SelectsEntry(c, "C20.11") }, MinSites: 1},
 		},
 	})
 }
